@@ -480,7 +480,7 @@ func c09EntryTable(e *Env) {
 func c09SuspendKey(e *Env) {
 	r := e.R
 	r.Rule("C09.suspend-key", "AGR/VF", "suspend flag read with the key it is written with (file id, not DAG.Name)", 3)
-	tr := &ir.Tracer{C: e.C, Through: ir.StringThrough, Descend: e.repoDescend}
+	tr := &ir.Tracer{C: e.C, Through: ir.StringThrough, Descend: e.repoDescend, Fields: e.helperObjectFields}
 	n := 0
 	for _, f := range e.RepoFuncsSorted() {
 		for _, ci := range ir.CallsIn(f, func(c *ssa.CallCommon) bool {
